@@ -466,3 +466,8 @@ pub(crate) enum ScopeVarLvaluePath {
         mod_name: String,
     },
 }
+
+#[cfg(glass_easel_verif)]
+pub(crate) fn verif_get_var_name(var_id: usize) -> String {
+    get_var_name(var_id)
+}
